@@ -80,7 +80,7 @@ var rollName = "app.log"
 
 // file names that contain what a time layout would take for a field (digits 1-6, 15, 2006,
 // zone and month abbreviations) are names like any other
-var rollNames = []string{"app.log", "app.log", "svc1.log", "worker15.log", "audit_2006.log", "MST-batch.log", "Jan_report.log", "x.2.3.4.5"}
+var rollNames = []string{"app.log", "app.log", "svc1.log", "worker15.log", "audit_2006.log", "MST-batch.log", "Jan_report.log", "x.2.3.4.5", "svc/app.log"}
 
 type rollWrite struct {
 	ID         string
@@ -237,6 +237,18 @@ func spawnWritersPart(x *Exec, s *RollScn, a *log.RollingFileAppender, writes *[
 	}
 }
 
+// rollBase is the last path component of the appender's file name: a name with a directory
+// part ("svc/app.log") puts the rotated files app.log.<ts> into that sub-directory of FileDir.
+func rollBase() string { return rollName[strings.LastIndex(rollName, "/")+1:] }
+
+// rollSub is the directory part of the file name ("" or "/svc").
+func rollSub() string {
+	if i := strings.LastIndex(rollName, "/"); i >= 0 {
+		return "/" + rollName[:i]
+	}
+	return ""
+}
+
 var rollNameRe = regexp.MustCompile(`^\d{14}$`)
 
 func parseNameTime(ts string) (time.Time, bool) {
@@ -265,7 +277,7 @@ func init() { register(c13{}) }
 func (c13) ID() string    { return "C13" }
 func (c13) Level() string { return "exploration" }
 func (c13) Rule() string {
-	return "case = (rotation interval, start offset inside the interval, time zone, 1-16 writer tasks (optionally spread over two live appender objects on the same file name) with unique payloads of 1 B-64 KiB and occasionally one of 300 000 bytes, a list of clock decisions biased to land just before/on/after interval boundaries or to idle across whole intervals, optional pre-existing file, stop/start cycles, scheduling tape) drawn by rapid from the seed and run on the simulated disk and clock, fault-free. Non-trivial = at least one interval boundary crossed while the appender was started AND at least one preemption (or, for single-writer cases, at least two boundaries); distinct = distinct context-switch trace hashes (clock decisions are part of the trace)."
+	return "case = (rotation interval, start offset inside the interval, time zone, 1-16 writer tasks (optionally spread over two live appender objects on the same file name; file names include ones with layout-like tokens and one with a directory part, svc/app.log, whose files must sit in that sub-directory) with unique payloads of 1 B-64 KiB and occasionally one of 300 000 bytes, a list of clock decisions biased to land just before/on/after interval boundaries or to idle across whole intervals, optional pre-existing file, stop/start cycles, scheduling tape) drawn by rapid from the seed and run on the simulated disk and clock, fault-free. Non-trivial = at least one interval boundary crossed while the appender was started AND at least one preemption (or, for single-writer cases, at least two boundaries); distinct = distinct context-switch trace hashes (clock decisions are part of the trace)."
 }
 func (c13) Decode(raw json.RawMessage) (any, error) {
 	var s RollScn
@@ -300,7 +312,7 @@ func (c13) Run(x *Exec, scn any) {
 		rollName = s.Name
 	}
 	defer func() { rollName = "app.log" }()
-	x.FS.MkdirAll(rollDir)
+	x.FS.MkdirAll(rollDir + rollSub())
 	iv := intervals[s.Interval]
 	start := verifsim.Now()
 	preContent := "OLD-CONTENT-BEFORE-START\n"
@@ -342,7 +354,7 @@ func (c13) Run(x *Exec, scn any) {
 			if s.Knobs.MapSeed%3 == 2 && r == s.Restarts-1 && !s.Twin {
 				// the exported configuration of a stopped appender may be changed before it is started
 				// again: from now on its files belong in the other directory
-				x.FS.MkdirAll(rollDir + "2")
+				x.FS.MkdirAll(rollDir + "2" + rollSub())
 				a.FileDir = rollDir + "2"
 				movedAt = len(writes)
 			}
@@ -418,13 +430,16 @@ func judgeRolling(x *Exec, s *RollScn, pid string, writes []*rollWrite, iv time.
 	files := map[string][]byte{}
 	for p, data := range x.FS.AllFiles() {
 		base := p[strings.LastIndex(p, "/")+1:]
-		if strings.HasPrefix(base, rollName+".") && !strings.HasPrefix(base, rollName+".wf") {
+		if strings.HasPrefix(base, rollBase()+".") && !strings.HasPrefix(base, rollBase()+".wf") {
 			files[p] = data
+			if sub := rollSub(); sub != "" && !strings.HasSuffix(p[:strings.LastIndex(p, "/")], sub) {
+				o.violate("bad-file-name", pid+"/file-outside-its-directory", "file %s of appender %q is not in the sub-directory its name points into", p, rollName)
+			}
 		}
 	}
 	for p := range files {
 		base := p[strings.LastIndex(p, "/")+1:]
-		suffix := strings.TrimPrefix(base, rollName+".")
+		suffix := strings.TrimPrefix(base, rollBase()+".")
 		known := false
 		for _, pf := range s.Pop {
 			if pf.Name == base {
@@ -486,7 +501,7 @@ func judgeRolling(x *Exec, s *RollScn, pid string, writes []*rollWrite, iv time.
 			continue
 		}
 		base := where[0][strings.LastIndex(where[0], "/")+1:]
-		ft, ok := parseNameTime(strings.TrimPrefix(base, rollName+"."))
+		ft, ok := parseNameTime(strings.TrimPrefix(base, rollBase()+"."))
 		if !ok {
 			continue
 		}
